@@ -1,6 +1,7 @@
 import ShuttleModel.Lang
 import ShuttleModel.Runner
 import ShuttleModel.Serialize
+import ShuttleModel.Ref
 /-
   Pure parts of the line-protocol driver: rendering of logs, prediction mode (the model's own
   schedulers drive the model) and the independent enumerator of a program's choice tree.
@@ -35,14 +36,17 @@ def toSched (seed : Nat) (steps : List SStep) : Schedule :=
 def schedHex (seed : Nat) (steps : List SStep) : String :=
   (serializeSchedule (toSched seed steps)).replace "\n" ""
 
-def execLines {P : Program} {σ : Type} (i seed : Nat) (r : Result P σ) : List String :=
-  [s!"X {i} {seed}"] ++ r.st.log.toList.map evLine ++ [outcomeLine r.outcome, s!"S {schedHex seed r.st.k.schedule_}"]
+def execLines {P : Program} {σ : Type} (i seed : Nat) (r : Result P σ)
+    (fix : Outcome → Kernel → P.U → Outcome := fun o _ _ => o) : List String :=
+  [s!"X {i} {seed}"] ++ r.st.log.toList.map evLine ++
+    [outcomeLine (fix r.outcome r.st.k r.st.u), s!"S {schedHex seed r.st.k.schedule_}"]
 
 def fuelLoop : Nat := 400000
 def fuelSeg : Nat := 200000
 
-def runnerLines {P : Program} {σ : Type} (res : RunnerResult P σ) : List String :=
-  let body := (res.execs.zipIdx.flatMap fun ((seed, r), i) => execLines i seed r)
+def runnerLines {P : Program} {σ : Type} (res : RunnerResult P σ)
+    (fix : Outcome → Kernel → P.U → Outcome := fun o _ _ => o) : List String :=
+  let body := (res.execs.zipIdx.flatMap fun ((seed, r), i) => execLines i seed r fix)
   match res.count, res.newExecPanic with
   | some n, _ => body ++ ["X end", s!"N {n}"]
   | none, some msg => body ++ [s!"E panic {msg}", "N fail"]
@@ -56,16 +60,17 @@ def predictProgram (ir : IR) : List String :=
   match parts.headD "" with
   | "rr" =>
     runnerLines (runner P rrScheduler ir.steps fuelLoop fuelSeg 100000 { maxIterations := max (num 1) 1 } [])
+      ir.finalOutcome
   | "random" =>
     runnerLines (runner P randomScheduler ir.steps fuelLoop fuelSeg 100000
-      (Rng.RandomScheduler.newFromSeed (num 1) (max (num 2) 1)) [])
+      (Rng.RandomScheduler.newFromSeed (num 1) (max (num 2) 1)) []) ir.finalOutcome
   | "dfs" =>
     let mx : Option Nat := (parts[1]?).bind String.toNat?
     runnerLines (runner P dfsScheduler ir.steps fuelLoop fuelSeg 1000000
-      { dfs := Dfs.DfsState.new mx, allowRandom := true } [])
+      { dfs := Dfs.DfsState.new mx, allowRandom := true } []) ir.finalOutcome
   | "pct" =>
     runnerLines (runner P pctScheduler ir.steps fuelLoop fuelSeg 100000
-      (Pct.PctState.newFromSeed (num 1) (max (num 2) 1) (max (num 3) 1)) [])
+      (Pct.PctState.newFromSeed (num 1) (max (num 2) 1) (max (num 3) 1)) []) ir.finalOutcome
   | other => [s!"E model-unsupported-run {other}"]
 
 /-! ### Independent enumeration of the choice tree (shares no code with `Sched/Dfs.lean`) -/
@@ -115,5 +120,113 @@ def enumerate (ir : IR) (limit : Nat) : List String × Bool :=
 def enumerateProgram (ir : IR) (limit : Nat) : List String :=
   let (ls, complete) := enumerate ir limit
   ls ++ [if complete then s!"T complete {ls.length}" else s!"T truncated {ls.length}"]
+
+/-! ### C02: outcome sets (reference semantics vs the model kernel's choice tree) -/
+
+def sortStrings (l : List String) : List String := (l.toArray.qsort (· < ·)).toList
+
+def dedupSorted : List String → List String
+  | a :: b :: rest => if a == b then dedupSorted (b :: rest) else a :: dedupSorted (b :: rest)
+  | l => l
+
+/-- `ref` mode: every outcome the sequentially consistent reference semantics allows -/
+def refProgram (ir : IR) (limit : Nat) (cfg : Ref.Cfg := {}) : List String :=
+  let (os, complete) := Ref.outcomes ir limit cfg
+  let ls := dedupSorted (sortStrings (os.map (·.str)))
+  ls.map ("U " ++ ·) ++ [if complete then s!"T complete {ls.length}" else s!"T truncated {ls.length}"]
+
+/-- the outcome of one execution of the model kernel, in the canonical format of
+`Ref.Outcome.str`: per body the `pc=result` pairs of its `O` lines, then the termination kind -/
+def projectOutcome (ir : IR) (log : List String) (outcome : Outcome) : String :=
+  let n := ir.tasks.length
+  let opName (k pc : Nat) : String := match (ir.tasks[k]?).bind (·.ops[pc]?) with | some o => o.name | none => ""
+  let opNum (k pc : Nat) : Nat := match (ir.tasks[k]?).bind (·.ops[pc]?) with | some o => o.num 0 | none => 0
+  -- (body, pc, result) of every logged operation, oldest first; bodies that logged `end`
+  let (obs, ended) := log.foldl (fun (acc : List (Nat × Nat × String) × List Nat) l =>
+    match l.splitOn " " with
+    | ["O", _, k, "end"] => (acc.1, ((k.toNat?).getD 0) :: acc.2)
+    | ["O", _, k, pc, res] =>
+      match k.toNat?, pc.toNat? with
+      | some k, some pc => (acc.1 ++ [(k, pc, res)], acc.2)
+      | _, _ => acc
+    | _ => acc) ([], [])
+  let spawned := 0 :: (obs.filter fun (k, pc, res) =>
+      (opName k pc == "spawn" || opName k pc == "scope_spawn") && res == "ok").map fun (k, pc, _) => opNum k pc
+  let per := (List.range n).map fun k =>
+    toString k ++ ":" ++ ",".intercalate ((obs.filter (·.1 == k)).map fun (_, pc, res) =>
+      toString pc ++ "=" ++ (if opName k pc == "rand" then "v:?" else res))
+  let unfinished := (List.range n).filter fun k => spawned.contains k && !ended.contains k
+  let term := match outcome with
+    | .ok | .stopped | .abandoned => "ok"
+    | .deadlock _ => "deadlock " ++ ",".intercalate (unfinished.map toString)
+    | .panic _ _ | .schedPanic _ => "panic"
+    | .stepBoundFail _ => "other:stepbound"
+    | .abort _ => "other:abort"
+    | .schedulingError => "other:schedulingerror"
+    | .outOfFuel => "other:model-out-of-fuel"
+  ";".intercalate per ++ ";E:" ++ term
+
+/-- the loop of `enumerate`, keeping for every leaf its schedule, the observation lines of its log
+(oldest first) and how it ended (newest leaf first) -/
+def enumerateLeaves (ir : IR) (limit : Nat) : List (String × List String × Outcome) × Bool :=
+  let P := ir.program
+  let rec go (fuel : Nat) (stack : List (List Nat)) (acc : List (String × List String × Outcome)) (count : Nat) :
+      List (String × List String × Outcome) × Bool :=
+    match fuel with
+    | 0 => (acc, false)
+    | fuel + 1 =>
+      match stack with
+      | [] => (acc, true)
+      | p :: rest =>
+        if count ≥ limit then (acc, false) else
+        let ds := (Rng.FixedDataSource.initialize Generated.DFS_RANDOM_SEED)
+        let (seed, ds) := ds.reinitialize
+        let r := execute P enumScheduler ir.steps seed { prefix_ := p, data := ds } fuelLoop fuelSeg
+        let decisions := r.st.sch.seen.reverse
+        let choices := decisions.map (·.2)
+        let groups := (decisions.zipIdx.filter (fun (_, i) => i ≥ p.length)).map fun ((off, c), i) =>
+          (off.dropWhile (· != c)).drop 1 |>.map fun a => choices.take i ++ [a]
+        let obsLines := r.st.log.toList.filterMap fun e => match e with | .obs s => some s | _ => none
+        go fuel (groups.reverse.flatten ++ rest) ((schedHex seed r.st.k.schedule_, obsLines, r.outcome) :: acc) (count + 1)
+  go (limit + 1) [[]] [] 0
+
+/-- every leaf of the model kernel's choice tree projected to (schedule, outcome), newest first -/
+def enumerateOutcomes (ir : IR) (limit : Nat) : List (String × String) × Bool :=
+  let (leaves, complete) := enumerateLeaves ir limit
+  (leaves.map fun (h, obs, o) => (h, projectOutcome ir obs o), complete)
+
+/-- `outcomes` mode: the outcome set of the model kernel's complete choice tree (`U` lines), after
+the schedule and outcome of every leaf in enumeration order (`L <schedule-hex> <outcome>`) -/
+def outcomesProgram (ir : IR) (limit : Nat) : List String :=
+  let (leaves, complete) := enumerateOutcomes ir limit
+  let os := leaves.map (·.2)
+  let ls := dedupSorted (sortStrings os)
+  leaves.reverse.map (fun (h, o) => s!"L {h} {o}") ++ ls.map ("U " ++ ·) ++ [if complete then s!"T complete {os.length} {ls.length}" else s!"T truncated {os.length} {ls.length}"]
+
+/-- `corpus/C02/f1_mpsc_drop_no_switch.vp` (the same program as `ShuttleProofs.C02.Witness.mpscDrop`) -/
+def c02WitnessText : String :=
+  "=== c02_f1_mpsc_drop\nconfig steps=none clocks=0\nobj c chan unb\n" ++
+  "task 0 thread\n  spawn 1\n  drop_tx c\n  recv c\n  try_recv c\nend\n" ++
+  "task 1 thread\n  send c 1\n  drop_tx c\nend\nrun dfs:100\n"
+
+def c02WitnessMissing : String := "0:0=ok,1=ok,2=v:1,3=err:empty;1:0=ok,1=ok;E:ok"
+
+/-- `c02witness` mode — the executable half of `incomplete_witness_mpsc_drop`: the missing outcome is
+in `Ref.outcomes` (also kernel-checked: `ShuttleProofs.C02.incomplete_witness_mpsc_drop_ref`), the
+model kernel's choice tree is enumerated completely and none of its leaves has that outcome.
+(The model-kernel half cannot be checked by the Lean kernel: `execute` does not reduce there —
+`Op.num` goes through `String.toNat?` — so it is evaluated by the compiled driver.) -/
+def c02Witness : List String × Bool :=
+  match parseBatch c02WitnessText with
+  | [ir] =>
+    let (ros, rcomplete) := Ref.outcomes ir 100000 { spuriousPark := false, leaderLast := true }
+    let refHas := ros.any (·.str == c02WitnessMissing)
+    let (leaves, mcomplete) := enumerateOutcomes ir 1000
+    let modelHas := leaves.any (·.2 == c02WitnessMissing)
+    let holds := refHas && rcomplete && mcomplete && !modelHas
+    ([s!"W ref-complete {rcomplete} outcomes {ros.length}", s!"W ref-has-missing {refHas}",
+      s!"W model-complete {mcomplete} leaves {leaves.length}", s!"W model-has-missing {modelHas}",
+      s!"W incomplete_witness_mpsc_drop {if holds then "holds" else "does-not-hold"}"], holds)
+  | _ => (["W parse-error"], false)
 
 end ShuttleModel.Driver
